@@ -4,6 +4,7 @@ import (
 	"context"
 	"encoding/binary"
 	"fmt"
+	"io"
 	"strings"
 	"sync"
 
@@ -106,9 +107,19 @@ func openCarStorage(ctx context.Context, where string) (*carv2.Reader, ReaderAtC
 	return carReader, nil, nil
 }
 
+// fullReadAt is reader.ReadAt for callers that need all of p: a ReaderAt may report io.EOF together with the
+// last bytes of its input when the read ends exactly there; that is not a failure.
+func fullReadAt(reader io.ReaderAt, p []byte, off int64) error {
+	n, err := reader.ReadAt(p, off)
+	if n == len(p) && err == io.EOF {
+		return nil
+	}
+	return err
+}
+
 func readSectionFromReaderAt(reader ReaderAtCloser, offset uint64, length uint64) ([]byte, error) {
 	data := make([]byte, length)
-	_, err := reader.ReadAt(data, int64(offset))
+	err := fullReadAt(reader, data, int64(offset))
 	if err != nil {
 		return nil, err
 	}
@@ -121,7 +132,7 @@ func readNodeFromReaderAtWithOffsetAndSize(reader ReaderAtCloser, wantedCid *cid
 	}
 	// read MaxVarintLen64 bytes
 	section := make([]byte, length)
-	_, err := reader.ReadAt(section, int64(offset))
+	err := fullReadAt(reader, section, int64(offset))
 	if err != nil {
 		return nil, err
 	}
